@@ -80,7 +80,7 @@ func (e mfEntry) padIn(prefix string) string {
 func mfRenderItem(format, cls string, rest string) (string, *mfEntry) {
 	x := mfWellFormed(format, "x")
 	switch cls {
-	case "none":
+	case "none", "cfghdr_nocolon", "cfghdr_nobracket", "cfghdr_emptykey":
 		return x.render(format), &x
 	case "longline":
 		x.Pad = 70000
